@@ -106,7 +106,23 @@ func runeHex(s string) string { return hx(string([]rune(s))) }
 func (c *Ctx) nearMiss(t *Node) string {
 	r := c.R
 	s := c.style(true).Render(t)
-	switch r.Intn(5) {
+	switch r.Intn(6) {
+	case 5:
+		// characters at the very beginning or end of the text that a careless trim might take for white space (control
+		// characters, zero-width and byte-order marks) or that strings.TrimSpace really removes (NBSP, NEL, U+2028, U+3000 -
+		// then the text stays a sentence): alone or next to real blanks / newlines
+		odd := pick(r, []string{"\x00", "\x01", "\x08", "\x0e", "\x1b", "\x1f", "\x7f", "\u200b", "\ufeff", "\u00a0", "\u0085", "\u2028", "\u3000", "\u180e", "\x1c"})
+		pad := pick(r, []string{"", " ", "\n", " \n", "\t"})
+		switch r.Intn(4) {
+		case 0:
+			return odd + pad + s
+		case 1:
+			return s + pad + odd
+		case 2:
+			return pad + odd + pad + s + pad
+		default:
+			return odd + s + odd
+		}
 	case 4:
 		// a name starting with a character names cannot start with; two blanks where the grammar allows one or two
 		switch r.Intn(3) {
